@@ -1,18 +1,39 @@
 #!/bin/sh
-# must-fail corpus: every seeded change must be reported by the check of its property (uses /repo's working
-# tree: applies the patch, runs the check, reverts). Prints one line per seed; exit 1 if a seed is missed.
+# must-fail corpus: every seeded change must be reported by the check of its property.
+# Each seed runs in its own scratch worktree of /repo HEAD (bin/vcheck -repo <worktree>), 3 at a time;
+# /repo's working tree is not touched. Prints one line per seed; exit 1 if a seed is missed.
 cd /verif
-miss=0
-for d in seeded/*/; do
-  id=$(basename $d)
+export GOFLAGS=-mod=mod GOPROXY=off GOSUMDB=off GOTOOLCHAIN=local
+out=/verif/out/corpus; rm -rf $out; mkdir -p $out
+one() {
+  id=$1
+  d=/verif/seeded/$id
   prop=$(python3 -c "import json;print(json.load(open('$d/meta.json'))['property'])")
   extra=""
-  case $id in C09-1) extra="C15";; C09-3) extra="C15";; esac
-  out=$(tools/run_seed.sh $id $prop $extra 2>&1)
-  if echo "$out" | grep -q "^VIOLATION"; then
-    echo "$id detected: $(echo "$out" | grep -c '^VIOLATION') violation line(s), first: $(echo "$out" | grep '^VIOLATION' | head -1 | sed 's/.*replays\///' | cut -c1-110)"
-  else
-    echo "$id MISSED"; miss=1
+  case $id in C09-1|C09-3) extra="C15";; esac
+  wt=/tmp/seedwt-$id
+  git -C /repo worktree remove --force $wt >/dev/null 2>&1; rm -rf $wt
+  git -C /repo worktree add -q --detach $wt HEAD || { echo "$id WORKTREE-FAILED"; return; }
+  if ! git -C $wt apply $d/patch.diff 2>/dev/null; then
+    if ! git -C $wt apply -3 $d/patch.diff >/dev/null 2>&1; then echo "$id PATCH-DOES-NOT-APPLY"; git -C /repo worktree remove --force $wt; return; fi
   fi
+  res=""
+  for p in $prop $extra; do
+    bin/vcheck -repo $wt -property $p -out $out/$id -evidence-dir $out/$id/evidence > $out/$id.$p.log 2>&1
+    res="$res$(grep '^VIOLATION' $out/$id.$p.log | head -2 | sed 's/.*replays\///' | cut -c1-100 | tr '\n' ';')"
+  done
+  git -C /repo worktree remove --force $wt >/dev/null 2>&1; rm -rf $wt
+  if [ -n "$res" ]; then echo "$id detected: $res"; else echo "$id MISSED"; fi
+}
+n=0
+for d in seeded/*/; do
+  id=$(basename $d)
+  one $id > $out/$id.result &
+  n=$((n+1))
+  if [ $((n % 3)) -eq 0 ]; then wait; fi
 done
-exit $miss
+wait
+cat $out/*.result
+git -C /repo worktree prune
+if grep -q "MISSED\|DOES-NOT-APPLY\|FAILED" $out/*.result; then exit 1; fi
+exit 0
